@@ -63,10 +63,16 @@ def prop(name):
 CONTRACTS = []
 for cls in MSGSETS:
     wrappers = [t.__type__ for t in cls.listaggregates.values() if t.__type__.__name__ in SP.WRAPPED]
-    om = other_member(cls)
-    pool = wrappers + ([om] if om is not None else [])
+    # every kind of member the message set can hold: the statement wrappers and ALL the others (transfers, mail, syncs ...)
+    others = [t.__type__ for a, t in cls.listaggregates.items() if t.__type__.__name__ not in SP.WRAPPED]
+    pool = wrappers + others
     for k in (0, 1, 2, 3):
-        for combo in itertools.product(pool, repeat=k):
+        if k == 3 and len(pool) > 4:
+            # large message sets: all pairs, and the triples that hold at least two statement wrappers
+            combos = [c for c in itertools.product(pool, repeat=3) if sum(x in wrappers for x in c) >= 2]
+        else:
+            combos = list(itertools.product(pool, repeat=k))
+        for combo in combos:
             CONTRACTS.append(Contract(
                 f"ofxtools.models:{cls.__name__}.statements",
                 args=[MsgSetArg("msgs", cls, list(combo))], call=prop("statements"),
@@ -328,3 +334,12 @@ CONTRACTS.append(Contract("ofxtools.models:OFX.statements", args=[A3_("cls")], c
                           ensures=[("shortcuts-are-pure-and-repeatable", "result == []")], cases=shortcut_cases, native_only=True, shards=4,
                           notes="every property defined by a model class (all shortcut accessors), on up to three real instances of the class (minimal, some, all optional children and list members twice): two reads return the same objects and the model - classes, list members, written tree - is unchanged",
                           props=["C16", "C17"]))
+
+
+# ------------------------------------------------------------------ two-level shortcuts: SONRS.org / SONRS.fid read through the optional <FI>
+for pn in ("org", "fid"):
+    CONTRACTS.append(Contract(f"ofxtools.models:SONRS.{pn}", args=[AliasArg2("obj", m.SONRS, "fi")], call=prop(pn),
+                              ensures=[("the-FI's-own-value", f"obj.fi is not None and result is obj.fi.{pn}")],
+                              raises=[(AttributeError, "obj.fi is None", "must")],
+                              notes=f"SONRS.{pn} is fi.{pn}; a sign-on response without <FI> has no {pn}: AttributeError (so that hasattr / getattr with a default work) and nothing else",
+                              props=["C16"], symbolic_only=True))
